@@ -1,7 +1,5 @@
 package ref
 
-import "strings"
-
 // MergeFlags are the flags of the deep-merge operator: `+` append sequences, `d` merge sequences
 // by position, `?` only existing keys, `n` only new keys.
 type MergeFlags struct{ Append, Deep, Existing, NewOnly bool }
@@ -73,10 +71,6 @@ func mergeResolve(root *V, path []any, create bool, perr *error) *V {
 	for _, p := range path {
 		switch k := p.(type) {
 		case string:
-			if strings.ContainsAny(k, "*?") {
-				*perr = ErrDomain
-				return nil
-			}
 			if cur.K == Null {
 				*cur = V{K: Map, M: []KV{}}
 			}
